@@ -26,6 +26,7 @@ import (
 	"github.com/gocql/gocql"
 	"github.com/gocql/gocql/lz4"
 	"github.com/golang/snappy"
+	plz4 "github.com/pierrec/lz4/v4"
 	"verifharness/vh"
 )
 
@@ -367,4 +368,265 @@ func genBig(r *vh.Rng, class string) (op, ans, cls string) {
 	}
 	bigCache.body = nil
 	return fmt.Sprintf("%s %s %d %d %d %s %s %s", word, comp, ver, hflag, n, gen, enc, dec), ans, word + "/" + class + "/" + comp
+}
+
+// ---------- the LZ4 block format ----------
+//
+//	lz4blk <block> <n>      pierrec's UncompressBlock(block, make([]byte, n)) on structurally complete
+//	                        blocks (valid, mutated, hand-made sequences); the model answers with the LZ4
+//	                        block FORMAT's decoder written in Lean (Model/CompressLz4Block.lean)
+//	lz4brt <body> <block>   block = what pierrec's CompressBlock produced for body (destination = the
+//	                        bound); the model decodes it with the format's decoder and demands the body
+
+func execLz4blk(block []byte, n int) string {
+	dst := make([]byte, n)
+	m, err := plz4.UncompressBlock(block, dst)
+	if err != nil {
+		return "err"
+	}
+	if m < 0 || m > n {
+		return fmt.Sprintf("bad-count:%d", m)
+	}
+	return "ok:" + canon(dst[:m])
+}
+
+func lz4Block(body []byte) []byte {
+	var cc plz4.Compressor
+	buf := make([]byte, plz4.CompressBlockBound(len(body)))
+	n, err := cc.CompressBlock(body, buf)
+	if err != nil {
+		return nil
+	}
+	return buf[:n]
+}
+
+func putLz4Len(b []byte, m int) []byte {
+	for m >= 255 {
+		b = append(b, 255)
+		m -= 255
+	}
+	return append(b, byte(m))
+}
+
+// hand-made sequences: literal lengths and match lengths on both sides of the nibble limit 15 and of
+// the extension steps 15+255k, offsets mostly inside the output so far, sometimes 0 / beyond
+func genLz4Seqs(r *vh.Rng) ([]byte, int, string) {
+	var b []byte
+	d := 0
+	bad := false
+	lens := []int{0, 1, 2, 14, 15, 16, 30, 269, 270, 271, 524, 525}
+	n := 1 + r.Intn(6)
+	for i := 0; i < n; i++ {
+		ll := lens[r.Intn(len(lens))]
+		if d == 0 && ll == 0 {
+			ll = 1 + r.Intn(20)
+		}
+		last := i == n-1
+		if last && ll < 12 {
+			ll = 12 + r.Intn(8) // the format's end-of-block rules: the last match starts at least 12 bytes before the end, the last 5 bytes are literals
+		}
+		ml := 0
+		if !last {
+			ml = lens[r.Intn(len(lens))]
+		}
+		tok := byte(0)
+		if ll >= 15 {
+			tok = 0xF0
+		} else {
+			tok = byte(ll << 4)
+		}
+		if !last {
+			if ml >= 15 {
+				tok |= 15
+			} else {
+				tok |= byte(ml)
+			}
+		}
+		b = append(b, tok)
+		if ll >= 15 {
+			b = putLz4Len(b, ll-15)
+		}
+		b = append(b, r.Bytes(ll)...)
+		d += ll
+		if last {
+			break
+		}
+		off := 1 + r.Intn(65535)
+		if d > 0 && r.Intn(8) != 0 {
+			off = 1 + r.Intn(minInt(d, 65535))
+		}
+		if r.Intn(25) == 0 {
+			off = 0
+		}
+		if off == 0 || off > d {
+			bad = true
+		}
+		b = append(b, byte(off), byte(off>>8))
+		if ml >= 15 {
+			b = putLz4Len(b, ml-15)
+		}
+		d += ml + 4
+	}
+	cls := "seqs"
+	if bad {
+		cls = "seqs-bad"
+	}
+	return b, d, cls
+}
+
+func genLz4blk(r *vh.Rng, lens []int) (string, string) {
+	var block []byte
+	n := 0
+	cls := ""
+	if r.Intn(3) == 0 {
+		block, n, cls = genLz4Seqs(r)
+	} else {
+		bodyArg, _ := genShape(r, 1<<13+1, lens, []int{1024, 2048, 4096, 5000})
+		body := expand(bodyArg)
+		block = lz4Block(body)
+		n = len(body)
+		cls = "valid"
+		switch r.Intn(6) {
+		case 0:
+			if len(block) > 0 {
+				block[r.Intn(len(block))] ^= byte(1 << uint(r.Intn(8)))
+				cls = "bitflip"
+			}
+		case 1:
+			block = block[:r.Intn(len(block)+1)]
+			cls = "cut"
+		case 2:
+			block = r.Bytes(r.Intn(12))
+			cls = "garbage"
+		}
+	}
+	switch r.Intn(8) {
+	case 0:
+		n += 1 + r.Intn(9)
+		cls += "/dst-longer"
+	case 1:
+		n -= 1 + r.Intn(9)
+		if n < 0 {
+			n = 0
+		}
+		cls += "/dst-shorter"
+	default:
+		cls += "/dst-exact"
+	}
+	if len(block) > 0 && !lz4Complete(block) {
+		return "", "lz4blk/truncated-block-skipped" // KF-C18-1: no deterministic answer
+	}
+	if lz4ZeroOffset(block) {
+		return "", "lz4blk/zero-offset-skipped" // proposed KF-C18-3: the amd64 decoder accepts a match offset of 0
+	}
+	if !lz4EndRules(block) {
+		return "", "lz4blk/end-rules-violated-skipped" // implementation-defined: decoders may rely on the encoder's end-of-block rules
+	}
+	if n == 0 && len(block) > 0 {
+		return "", "lz4blk/empty-destination-skipped" // lz4.go never calls the decoder for a zero prefix
+	}
+	arg := vh.Hex(block)
+	if len(block) == 0 {
+		arg = "-"
+	}
+	return fmt.Sprintf("lz4blk %s %d", arg, n), "lz4blk/" + cls
+}
+
+func genLz4brt(r *vh.Rng, shapeMax int, lens []int, Ls []int) (string, string) {
+	bodyArg, cls := genShape(r, shapeMax, lens, Ls)
+	body := expand(bodyArg)
+	block := lz4Block(body)
+	if len(body) == 0 || len(block) == 0 {
+		return "", "lz4brt/empty-skipped"
+	}
+	return fmt.Sprintf("lz4brt %s %s", bodyArg, vh.Hex(block)), "lz4brt/" + cls
+}
+
+// lz4ZeroOffset tells whether a structurally complete block has a sequence whose match offset is 0
+// (a format error that pierrec/lz4 v4.1.8's amd64 decoder does not report: proposed KF-C18-3).
+func lz4ZeroOffset(src []byte) bool {
+	i := 0
+	for i < len(src) {
+		tok := src[i]
+		i++
+		ll := int(tok >> 4)
+		if ll == 15 {
+			for i < len(src) {
+				b := src[i]
+				i++
+				ll += int(b)
+				if b != 255 {
+					break
+				}
+			}
+		}
+		i += ll
+		if i+2 > len(src) {
+			return false
+		}
+		if src[i] == 0 && src[i+1] == 0 {
+			return true
+		}
+		i += 2
+		if tok&15 == 15 {
+			for i < len(src) {
+				b := src[i]
+				i++
+				if b != 255 {
+					break
+				}
+			}
+		}
+	}
+	return false
+}
+
+// lz4EndRules tells whether a structurally complete block obeys the format's end-of-block rules for
+// ENCODERS (a decoder may rely on them, and pierrec's amd64 decoder does): if there is any match, the
+// block ends with at least 5 literals and the last match starts at least 12 bytes before the end of the
+// output; without a match, at least one literal.
+func lz4EndRules(src []byte) bool {
+	if len(src) == 0 {
+		return true
+	}
+	i := 0
+	matches := 0
+	lastML := 0
+	for i < len(src) {
+		tok := src[i]
+		i++
+		ll := int(tok >> 4)
+		if ll == 15 {
+			for i < len(src) {
+				b := src[i]
+				i++
+				ll += int(b)
+				if b != 255 {
+					break
+				}
+			}
+		}
+		i += ll
+		if i >= len(src) {
+			if matches == 0 {
+				return ll >= 1
+			}
+			return ll >= 5 && ll+lastML >= 12
+		}
+		i += 2
+		ml := int(tok & 15)
+		if ml == 15 {
+			for i < len(src) {
+				b := src[i]
+				i++
+				ml += int(b)
+				if b != 255 {
+					break
+				}
+			}
+		}
+		lastML = ml + 4
+		matches++
+	}
+	return false
 }
